@@ -36,9 +36,13 @@ func (e *Exec) noteConfirmed(b int) {
 
 // truncate op
 func (e *Exec) opTruncate(b int) string {
-	w := e.w
 	before := e.ledgerObs()
-	err := w.Main.L.Truncate(w.Blocks[b].Blk.Blockid)
+	return e.opTruncateDone(b, before, e.w.Main.L.Truncate(e.w.Blocks[b].Blk.Blockid))
+}
+
+// opTruncateDone judges a truncation that has been carried out (err = what it reported).
+func (e *Exec) opTruncateDone(b int, before string, err error) string {
+	w := e.w
 	if err != nil {
 		if after := e.ledgerObs(); after != before {
 			e.violate("failed-truncate-left-trace", fmt.Sprintf("failed truncate to %d changed the ledger: before {%s} after {%s}", b, before, after), "")
